@@ -1,5 +1,7 @@
 """Driver configuration and manifest text for C16 (see DESIGN.md)."""
 
+RULE_ADD = ' Later additions: a regime with 8-15 KiB values, MaxMessageBytes 20-40 KB, MaxRequestSize 40-70 KB and four partitions on one broker; one or two value-enlarging interceptors (48 bytes each) in a third of the small-limit cases, all sizes judged after them; in calm runs (no scripted failing answer, no leader move or broker bounce, no connection-level failure seen by the producer) a message within every limit must not fail and, without a flush frequency, messages still buffered at quiescence are a violation when a count or byte trigger has certainly fired (pigeonhole over the brokers; reported only if the stall shows again when the case is re-executed).'
+
 CHECK = {'pkg': '.',
  'sim': True,
  'parts': [{'name': 'main', 'test': 'TestVF_C16', 'quick': {'shards': 8, 'checks': 200}, 'thorough': {'shards': 16, 'checks': 12000}}],
